@@ -1,4 +1,5 @@
 import Driver.Proto
+import WhatwgUrl.Spec.Url
 /-
   `model`: reads case lines on stdin, executes the Lean model (Impl) on them and prints one observation
   line per case. See /verif/DESIGN.md §4.3 and /verif/harness for the Go side.
@@ -151,6 +152,77 @@ def bitsetHas (n : String) (c : Nat) : Bool :=
   | "urlcp" => isUrlCp c
   | _ => false
 
+
+/-! ### the same histories on Spec (parse, resolve, setters; default configuration only) -/
+
+instance : Inhabited Spec.SUrl := ⟨{}⟩
+
+structure SSt where
+  uh : Array Spec.SUrl := #[]
+  last : Array String := #[]
+  out : Array String := #[]
+
+def specObs (u : Spec.SUrl) : String :=
+  let h := fun (s : Str) => hx (utf8 s)
+  let nilBits := b01 u.host.isNone ++ b01 u.port.isNone ++ b01 u.query.isNone ++ b01 u.fragment.isNone
+  "|".intercalate [
+    h (Spec.serialize u false), h (Spec.serialize u true), h (Spec.getProtocol u), h u.scheme, h u.username, h u.password,
+    h (Spec.getHost u), h (Spec.getHostname u), h (Spec.getPort u), "~", h (Spec.pathSerialize u), b01 u.hasOpaquePath,
+    h (Spec.getSearch u), h (u.query.getD []), h (Spec.getHash u), h (u.fragment.getD []), b01 u.isSpecial, "~", "~",
+    nilBits, (match u.path with | .list l => ",".intercalate (l.map h) | .opaque s => h s), "~", "~", "~"]
+
+def sflush (st : SSt) (res : String) : SSt := Id.run do
+  let mut last := st.last
+  let mut parts : Array String := #[res]
+  for k in [0:st.uh.size] do
+    let o := specObs st.uh[k]!
+    if last.getD k "" != o then
+      parts := parts.push s!"h{k}={o}"
+      if k < last.size then last := last.set! k o else last := last.push o
+  return { st with last := last, out := st.out.push (" ".intercalate parts.toList) }
+
+def spush (st : SSt) (r : Option Spec.SUrl) : SSt :=
+  match r with
+  | some u => sflush { st with uh := st.uh.push u } s!"ok{st.uh.size}"
+  | none => sflush st "E"
+
+def specSetterOf (k : Nat) : Spec.Setter :=
+  match k with
+  | 0 => .protocol | 1 => .username | 2 => .password | 3 => .host | 4 => .hostname
+  | 5 => .port | 6 => .pathname | 7 => .search | _ => .hash
+
+def sstr (t : String) : Str := goRunes (tokBytes t)
+
+def specOp (I : Spec.SIdna) (st : SSt) (op : List String) : SSt :=
+  match op with
+  | ["P", _, x] => spush st (Spec.apiParse I (sstr x) none)
+  | ["PR", _, b, x] => if (tokBytes b).isEmpty then spush st (Spec.apiParse I (sstr x) none) else spush st (Spec.apiParse I (sstr x) (some (sstr b)))
+  | ["R", h, x] =>
+    (match st.uh[h.toNat!]? with
+     | some b => let r := Spec.basicParse I (sstr x) (some b) none none; spush st (if r.2 then none else some r.1)
+     | none => sflush st "?")
+  | ["S", k, h, x] =>
+    (match st.uh[h.toNat!]? with
+     | some u => sflush { st with uh := st.uh.set! h.toNat! (Spec.set I (specSetterOf k.toNat!) u (sstr x)) } "-"
+     | none => sflush st "?")
+  | _ => sflush st "BADOP"
+
+/-- the Spec-side oracle: the library's answer (through the table) is "taken as given"; `dflt` answers unresolved keys -/
+def specIdna (tbl : IdnaTable) (dflt : Option Str) : Spec.SIdna := fun d =>
+  let src := utf8 d
+  match tbl.find? (·.1 == src) with
+  | some e =>
+    if e.2.2 && !asciiOrMiscNoPuny d 0 then none
+    else if e.2.1.isEmpty then none else some (goRunes e.2.1)
+  | none => if d.any (· == repl) then none else dflt   -- U+FFFD is disallowed by UTS #46
+
+def runSpecLine (id : String) (tbl : String) (rest : List String) : String :=
+  let table := tableOfTok tbl
+  let a := (splitOps rest).foldl (specOp (specIdna table none)) {}
+  let b := (splitOps rest).foldl (specOp (specIdna table (some ['z', 'z']))) {}
+  if a.out != b.out then id ++ "\tSPECNEED"
+  else id ++ "\t" ++ "\t".intercalate a.out.toList
+
 /-- one case line → one output line -/
 def runLine (line : String) : String :=
   match line.splitOn " " with
@@ -161,6 +233,7 @@ def runLine (line : String) : String :=
     let needs := (allQueries st).filter (!resolvable table ·)
     if needs.isEmpty then id ++ "\t" ++ "\t".intercalate st.out.toList
     else id ++ "\tNEED " ++ " ".intercalate (needs.eraseDups.map xs)
+  | id :: "SH" :: tbl :: rest => runSpecLine id tbl rest
   | [id, "LH", tbl, c, ns, x] =>
     let table := tableOfTok tbl
     let hr := parseHost (cfgOfTok c) (oracle table) {} (tokBytes x) (ns == "1")
@@ -180,6 +253,9 @@ def runLine (line : String) : String :=
   | [id, "LHAS", set, cp] => id ++ "\t" ++ b01 ((namedSet set).has cp.toNat!)
   | [id, "LBIT", set, cp] => id ++ "\t" ++ b01 (bitsetHas set cp.toNat!)
   | [id, "LDE", set, x] => id ++ "\t" ++ xs (decodeEncode (psetOfTok set) (tokBytes x))
+  | [id, "LF3", x] =>
+    -- class predicate of finding F3: removing tab/newline bytes splices an ill-formed UTF-8 sequence
+    id ++ "\t" ++ b01 (goRunes (removeTabNl (tokBytes x)).1 != (goRunes (tokBytes x)).filter (fun c => !(c.toNat == 9 || c.toNat == 10 || c.toNat == 13)))
   | [id, "LRD", x] => id ++ "\t" ++ xs (repeatedDecode (tokBytes x))
   | id :: _ => id ++ "\tBADLINE"
   | [] => "BADLINE"
